@@ -32,9 +32,25 @@ class MeshLine1(MeshSimplex, Mesh):
         from .mesh_line_1 import MeshLine1
 
         if isinstance(other, MeshLine1):
-            return MeshQuad1.init_tensor(self.p[0], other.p[0])
+            x, xcells = self._intervals()
+            y, ycells = other._intervals()
+            m = MeshQuad1.init_tensor(x, y)
+            # keep the quadrilaterals that are products of two elements
+            mins = m.p[:, m.t].min(axis=1)
+            keep = (xcells[np.searchsorted(x, mins[0])]
+                    * ycells[np.searchsorted(y, mins[1])])
+            return m if keep.all() else m.restrict(np.nonzero(keep)[0])
 
         return other * self
+
+    def _intervals(self):
+        """Return the sorted points of the elements and a boolean array
+        telling which intervals between consecutive points are elements."""
+        x = np.unique(self.p[0, self.t])
+        ends = np.searchsorted(x, np.sort(self.p[0, self.t], axis=0))
+        iscell = np.zeros(len(x), dtype=bool)
+        iscell[ends[0, ends[1] == ends[0] + 1]] = True
+        return x, iscell
 
     def _uniform(self):
         p, t = self.doflocs, self.t
